@@ -75,14 +75,18 @@ let chain_string (c : (n list * n list) list) : ostr =
 let ch_walk obs chain =
   let acc id = let i = int_of_nat id in i < String.length obs && obs.[i] = '1' in
   let m = chain_string (chain_of acc tree0) in
-  if m <> chain then mismatch "walk" (Printf.sprintf "model=%s obs=%s verdicts=%s" m chain obs)
+  if m <> chain then mismatch "walk" (Printf.sprintf "model=%s obs=%s verdicts=%s" m chain obs);
+  m = chain
 
 (* obs <hex hdr> <limit> <verdicts> <chain> <kind> *)
 let prop_mode = ref ""
 let obs_hooks : (n list -> n -> ostr -> ostr -> unit) list ref = ref []
 let ch_obs hex lim obs chain =
   ch_det hex lim obs;
-  if chain <> "PANIC" && chain <> "NIL" then ch_walk obs chain;
+  if chain <> "PANIC" && chain <> "NIL" then begin
+    if not (ch_walk obs chain) && !prop_mode = "C03" then
+      propfail "C03" (Printf.sprintf "the reported hierarchy %s is not the first-match path over the tree for the verdicts the detectors themselves return on this header: header=%s limit=%s" chain hex lim)
+  end;
   if !obs_hooks <> [] then begin
     let raw = bytes_of_hex hex in
     let l = n_of_int (int_of_string lim) in
@@ -209,6 +213,11 @@ let ch_jdepth hex lim obs desc =
           (if li = 0 || len < li then int_of_nat r.p_parsed = len else int_of_nat r.p_inspected = len && len > 0) in
   ignore l;
   if m <> (obs = "1") then mismatch "json" (Printf.sprintf "depth case %s limit=%s model=%b obs=%s" desc lim m obs)
+
+(* jdeep <hex> <limit> <obs> <desc> <kind>: legally deep documents must be recognised *)
+let ch_jdeep hex lim obs desc kind =
+  ch_jdepth hex lim obs desc;
+  if obs <> "1" then propfail "C08" (Printf.sprintf "well-formed JSON (%s, %s) within the promised nesting depth not recognised: limit=%s (document of %d bytes)" kind desc lim (String.length hex / 2))
 
 (* ---- charset ---- *)
 let charset_repaired = (try Sys.getenv "VERIF_CHARSET_LEGACY" <> "1" with Not_found -> true)
@@ -339,7 +348,10 @@ let ch_c19 namesf footf firstf chain kind _ahead =
   let fw = c19_forward names first_body head in
   if fw <> [] then propfail "C19" (Printf.sprintf "%s: names=[%s] footprints=[%s] result=%s short-entry-before-marker=%b apk-marker-present=%b kind=%s" (string_of_bytes fw) names_s footf chain k2f k3f kind);
   let cv = c19_converse names first_body head in
-  if cv <> [] then propfail "C19" (Printf.sprintf "%s: names=[%s] result=%s kind=%s" (string_of_bytes cv) names_s chain kind);
+  (* K5: an entry name that is a proper prefix of a marker can be continued by the first bytes of its body *)
+  let proper_prefix n = List.exists (fun m -> let mb = bytes_of_string m in List.length n < List.length mb && has_prefix n mb && n <> []) ["word/"; "xl/"; "ppt/"] in
+  let k5f = List.exists proper_prefix names in
+  if cv <> [] then propfail "C19" (Printf.sprintf "%s: names=[%s] result=%s name-plus-body-match=%b kind=%s" (string_of_bytes cv) names_s chain k5f kind);
   if no_marker names && head_full <> "application/zip|.zip" then
     propfail "C19" (Printf.sprintf "archive without any marker not reported as plain application/zip: names=[%s] result=%s" names_s chain);
   (* every OOXML / JAR / APK verdict has application/zip as its parent *)
@@ -571,9 +583,10 @@ let () =
        | ["c11x"; al; pre; k; codes] -> ch_c11x al pre k codes
        | ["jexh"; al; pre; k; bits] -> ch_jexh al pre k bits
        | ["jdepth"; hex; lim; obs; desc] -> ch_jdepth hex lim obs desc
+       | ["jdeep"; hex; lim; obs; desc; kind] -> ch_jdeep hex lim obs desc kind
        | ["json"; hex; lim; obs; dets; kind] -> ch_json hex lim obs dets kind
        | "!propfail" :: p :: rest -> propfail p (String.concat " " rest)
-       | ["walk"; obs; chain] -> ch_walk obs chain
+       | ["walk"; obs; chain] -> ignore (ch_walk obs chain)
        | ch :: rest ->
           (match List.assoc_opt ch !extra_channels with
            | Some f -> f rest
